@@ -264,8 +264,11 @@ func (v *FnVC) applyContract(ins ssa.Instruction, contract *FuncContract, name s
 		if !ok {
 			continue // the clause mentions a local of the callee: not expressible at the call site (weaker assumption)
 		}
-		v.assume(g, f)
+		// program-order assumption: it must not constrain the obligations generated before this point (in
+		// particular the callee's own precondition), so it narrows the reachability of what follows
+		v.narrow(f)
 	}
+	g = v.reach[v.curBlock]
 	// type invariants of results are assumed (the callee establishes them)
 	for _, r := range results {
 		v.assumeTypeInvG(r, penv, 1, g)
@@ -353,6 +356,13 @@ func (v *FnVC) havocLoc(x Expr, env *Env, st *State) {
 				return
 			case "chans":
 				v.havocKey(st, v.regKey("CH:len", "(Array Int Int)"))
+				return
+			case "allElems": // allElems("T"): contents of every slice of element type T
+				t, _ := v.W.resolveType(e.Args[0].(*EStr).V, env.pkg)
+				if t == nil {
+					v.fail("allElems: cannot resolve %s", e.Args[0])
+				}
+				v.havocKey(st, v.elemKey(t))
 				return
 			}
 		}
@@ -587,6 +597,10 @@ func (v *FnVC) modKeysOf(x Expr, contract *FuncContract, fn *ssa.Function) []str
 				}
 			case "chans":
 				return []string{v.regKey("CH:len", "(Array Int Int)")}
+			case "allElems":
+				if tt, _ := v.W.resolveType(e.Args[0].(*EStr).V, pkg); tt != nil {
+					return []string{v.elemKey(tt)}
+				}
 			}
 		}
 	}
@@ -881,6 +895,9 @@ func (v *FnVC) atExit() {
 		env.vars["result"] = results[0]
 	}
 	pos := v.Fn.Pos()
+	if cov := v.oblige("covers-exit", "false", "some return of the function is reachable under the contract's assumptions (vacuity guard)", pos); cov != nil {
+		cov.IsCover = true
+	}
 	for k, c := range v.C.Ensures {
 		if c.Kind == "defines" {
 			// names the function's result by uninterpreted spec functions: assumed at call sites (purity assumption), nothing to check here
@@ -1052,6 +1069,11 @@ func (v *FnVC) frameTargets(x Expr, env *Env, all map[string]bool, refs map[stri
 				all[v.regKey("CH:len", "(Array Int Int)")] = true
 				all[v.regKey("CH:closed", "(Array Int Bool)")] = true
 				return
+			case "allElems":
+				if tt, _ := v.W.resolveType(e.Args[0].(*EStr).V, env.pkg); tt != nil {
+					all[v.elemKey(tt)] = true
+					return
+				}
 			}
 		}
 	}
@@ -1175,4 +1197,59 @@ func (v *FnVC) tryEvalBool(e Expr, env *Env) (f string, ok bool) {
 		}
 	}()
 	return v.evalBool(e, env), true
+}
+
+// callModRefs: for a call to a callee with a contract, the object (argument value) each modified key is confined to,
+// when the modifies target has the shape <param>.<field>; keys absent from the map may be modified on any object.
+func (v *FnVC) callModRefs(c *ssa.CallCommon) map[string]ssa.Value {
+	out := map[string]ssa.Value{}
+	name, fn := v.calleeName(c)
+	var closure *ssa.MakeClosure
+	if mc, ok := c.Value.(*ssa.MakeClosure); ok && !c.IsInvoke() {
+		closure = mc
+		fn = mc.Fn.(*ssa.Function)
+		name = v.W.FuncQualName(fn)
+	}
+	if name == "" {
+		return out
+	}
+	contract := v.W.ContractFor(name)
+	if contract == nil {
+		return out
+	}
+	args := v.callArgs(c)
+	names := v.paramNames(contract, fn, c.Signature(), len(args) > c.Signature().Params().Len())
+	conflict := map[string]bool{}
+	for _, m := range contract.Modifies {
+		sel, ok := m.E.(*ESel)
+		if !ok {
+			continue
+		}
+		id, ok := sel.X.(*EIdent)
+		if !ok {
+			continue
+		}
+		var obj ssa.Value
+		for k, n := range names {
+			if n == id.Name && k < len(args) {
+				obj = args[k]
+			}
+		}
+		if obj == nil && closure != nil {
+			continue // captured variable: a cell, not tracked here
+		}
+		if obj == nil {
+			continue
+		}
+		for _, k := range v.modKeysOf(m.E, contract, fn) {
+			if prev, dup := out[k]; dup && prev != obj {
+				conflict[k] = true
+			}
+			out[k] = obj
+		}
+	}
+	for k := range conflict {
+		delete(out, k)
+	}
+	return out
 }
